@@ -17,13 +17,12 @@ template <class PT> void run_set(vf::Ctx& c, const char* tname, const regref::Se
   using H = Eigen::Matrix<S, DIM + 1, DIM + 1>;
   LD eps = std::numeric_limits<S>::epsilon();
   const bool dbl = std::is_same<S, double>::value;
-  auto rots = regref::rotations(DIM, th);
+  auto rots = regref::rotations(DIM, th ? 2 : 1);
   std::vector<V3> trans = {V3(0, 0, 0), V3(0.3, -1.2, DIM == 3 ? 2 : 0), V3(1e3, -1e3, DIM == 3 ? 10 : 0)};
   size_t n = set.pts.size();
   FindRigidTransformationBySVD<PT> reusedEstimator;   // one estimator object serves every problem of this set as well
   for (size_t ir = 0; ir < rots.size(); ++ir) for (size_t it = 0; it < trans.size(); ++it) for (int sig = 0; sig < 3; ++sig) {
     LD sigma = sig == 0 ? 0 : sig == 1 ? 1e-3L : 0.1L;
-    if (sig && (ir % 3) && !th) continue;   // quick: perturbed data on a third of the rotations
     PointSet<PT> src, tgt;
     for (size_t i = 0; i < n; ++i) {
       V3 p(set.pts[i][0], set.pts[i][1], DIM == 3 ? set.pts[i][2] : 0);
@@ -79,7 +78,7 @@ template <class PT> void run_set(vf::Ctx& c, const char* tname, const regref::Se
         if (!lastRow || ortho > 64 * eps || fabsl(det - 1) > 64 * eps) { c.violation("FindRigidTransformationBySVD.find.notProperRotation", p2, vf::JO().num("orthonormality_err", ortho).num("det", det).b("homogeneous_last_row", lastRow).done()); continue; }
         Eigen::Matrix<LD, DIM, DIM> Rref = ref.R.template block<DIM, DIM>(0, 0); Eigen::Matrix<LD, DIM, 1> tref = ref.t.template head<DIM>();
         LD eR = (R - Rref).norm(), eT = (t - tref).norm();
-        LD tolR = std::max<LD>(boundR, 64 * eps), tolT = tolR * (Ms + 1) + (16 * eps + sclErr) * (Mt + Ms + tref.norm()) * sqrtl((LD)rs.size());
+        LD tolR = std::max<LD>(4 * boundR, 64 * eps), tolT = tolR * (Ms + 1) + (16 * eps + sclErr) * (Mt + Ms + tref.norm()) * sqrtl((LD)rs.size());
         c.note_max(std::string("R_err_over_tol_") + tname, (double)(eR / tolR));
         if (!(eR <= tolR) || !(eT <= tolT)) { c.violation("FindRigidTransformationBySVD.find.notOptimalRigidMotion", p2, vf::JO().num("R_err", eR).num("R_tol", tolR).num("t_err", eT).num("t_tol", tolT).num("det", det).done()); continue; }
         if (sig == 0) {   // exact data: every source lands on its target, motion recovered to 1e-9 (1e-4 float) relative
@@ -114,12 +113,12 @@ std::string vf_case_params(uint64_t idx, const std::string& tier) { init(); bool
 std::string vf_describe(const std::string& tier) {
   init(); vf::JO o; std::vector<std::string> a, b; for (auto& s : g2) a.push_back(s.name); for (auto& s : g3) b.push_back(s.name);
   o.strs("sets_2d", a).strs("sets_3d", b);
-  o.str("rotations", tier == "thorough" ? "2D: {0,+-1e-6,+-0.1,+-pi/2,+-(pi-1e-6),pi} + 71 angles every 5 deg; 3D: 6 axes x {0,1e-6,0.1,pi/2,pi-1e-6,pi} + 8 axes x {1e-3,0.5,1,2,2.5,3,pi-1e-3,pi-1e-9}; perturbed data on every rotation" : "2D: {0,+-1e-6,+-0.1,+-pi/2,+-(pi-1e-6),pi}; 3D: 6 axes x {0,1e-6,0.1,pi/2,pi-1e-6,pi}");
+  o.str("rotations", std::string("2D: {0,+-1e-6,+-0.1,+-pi/2,+-(pi-1e-6),pi} + 71 angles every 5 deg; 3D: 6 axes x {0,1e-6,0.1,pi/2,pi-1e-6,pi} + 8 axes x {1e-3,0.5,1,2,2.5,3,pi-1e-3,pi-1e-9}") + (tier == "thorough" ? "; plus 2D every 0.5 deg (720 angles) and 3D 24 Halton axes x 16 angles up to pi-1e-4" : "") + "; perturbed data on every rotation");
   o.str("translations", "0, (0.3,-1.2,2), (1e3,-1e3,10)");
   o.str("correspondences", "identity, reversed, shuffled order, every other (subset), target stored permuted, subset of a permuted target in reversed order");
   o.str("overloads", "index-based and aligned, plain and preconditioned with scale {1e-3, 1/largest side, 1, 1e3}");
-  o.str("perturbation", "deterministic Halton pattern, sigma {0, 1e-3, 0.1} (perturbed on a third of the rotations)");
-  o.str("oracle", "proper rotation (64 eps); agreement with Horn's quaternion (3D) / closed-form (2D) solution in long double within max(16 eps n Ms Mt/(s_{d-1}+s_d), 64 eps); exact data: residuals and motion within 1e-9 (float 1e-4) relative; cases whose conditioning bound exceeds that are outside the quantifier (collinear / unresolvable in the scalar type) and counted trivial");
+  o.str("perturbation", "deterministic Halton pattern, sigma {0, 1e-3, 0.1}");
+  o.str("oracle", "proper rotation (64 eps); agreement with Horn's quaternion (3D) / closed-form (2D) solution in long double within max(64 eps n Ms Mt/(s_{d-1}+s_d), 64 eps); exact data: residuals and motion within 1e-9 (float 1e-4) relative; cases whose conditioning bound exceeds that are outside the quantifier (collinear / unresolvable in the scalar type) and counted trivial");
   return o.done();
 }
 
